@@ -63,8 +63,10 @@ def runSeq (c : CaseIn) : Array String := Id.run do
   let txOf (i : Nat) : Tx := (txs.find? (·.id == i)).getD ⟨i, []⟩
   let mut out : Array String := #[]
   let mut st : State := {}
-  -- slow cases: a real interval, rounds run freely after the hold (see harness/pushdrv slowCase)
-  let slow := c.header.headD "" == "slow"
+  -- slow and tick cases run on a real interval: a tick the harness cannot see may start the next rebroadcast
+  -- right after the last call of the running one was answered (in a slow case that is the scenario; in a tick
+  -- case the harness aligns its answers to the ticker's phase, which a loaded machine can still overrun)
+  let slow := c.header.headD "" == "slow" || c.header.headD "" == "tick"
   let mut os : OState := { freeRunning := slow }
   let mut diverged := false
   for (ln, line) in c.lines do
